@@ -576,10 +576,16 @@ def build_request(version, ops, ids=None, max_size=None, asynchronous=None, erro
     return messages.RequestMessage(request_header=header, batch_items=items)
 
 
+# Text outside ASCII cannot be written by the library's own encoder (it packs character by character), so requests that
+# carry it are made by substitution: a text value holding this marker goes over the wire as the same number of bytes of
+# UTF-8 ("\u00e9\u00e9\u00e9"), lengths and padding unchanged.  (Six fixed bytes: no random key material contains them.)
+UTF8_MARKER = '~kvU8~'
+
+
 def encode_request(req, version):
     s = utils.BytearrayStream()
     req.write(s, kmip_version=KMIPV[tuple(version)])
-    return bytes(s.buffer)
+    return bytes(s.buffer).replace(UTF8_MARKER.encode(), u'\u00e9\u00e9\u00e9'.encode('utf-8'))
 
 
 def decode_request(data, default_version=(1, 2)):
